@@ -489,6 +489,26 @@ func (r *Run) writeReplayLocked(reported, kind string, c interface{}, detail str
 	return path
 }
 
+// Pending writes the case about to run to the file named by VERIF_PENDING_FILE (if set) in replay format, before it
+// runs: a fault that ends the whole process (the Go runtime's "fatal error: concurrent map writes" cannot be
+// recovered) leaves the input on disk, and the entry script turns it into the witness. ClearPending removes it.
+func (r *Run) Pending(kind string, c interface{}) {
+	path := os.Getenv("VERIF_PENDING_FILE")
+	if path == "" || r.replaying {
+		return
+	}
+	raw, _ := json.Marshal(c)
+	rp := Replay{Property: r.Prop, Kind: kind, Reported: "process-ended-by-runtime-fault", Seed: r.Seed, Tier: r.Tier, Case: raw}
+	b, _ := json.MarshalIndent(rp, "", " ")
+	_ = os.WriteFile(path, b, 0o644)
+}
+
+func (r *Run) ClearPending() {
+	if path := os.Getenv("VERIF_PENDING_FILE"); path != "" && !r.replaying {
+		_ = os.Remove(path)
+	}
+}
+
 // Known records that a deviation was attributed to an open known finding.
 func (w *W) Known(id string) {
 	w.counters["attributed["+id+"]"]++
